@@ -10,6 +10,9 @@ RULE = ("Every trace recorded for C04/C05/C06 (edge covers of the TLC state grap
         "payload / single-owner bookkeeping must be ordered. Vacuity: each atomic site is weakened to relaxed in the "
         "recorded trace and TLC must then report a race (or the site is reported as not carrying a hand-over). The "
         "same is repeated with the __STDC_NO_ATOMICS__ fallback of atomic.h. A case = one execution; distinct by hash.")
+RULE += (" Design level: MessageQHB.tla / RingBufHB.tla compose the queue specifications with C11HB and TLC checks NoRace "
+         "in every interleaving of the bounded configurations under the declared (seq_cst) orders, and its violation with a "
+         "hand-over site relaxed.")
 ASSUMPTIONS = ["executions are sequentially consistent interleavings; reads-from = latest store in the executed order",
                "seq_cst treated as acq_rel, consume as acquire (conservative for race detection on SC executions)",
                "long real-thread runs under ThreadSanitizer (named in the property's quantifier) are NOT part of this check"]
@@ -54,7 +57,34 @@ def weaken_sites(run, what, trace, max_lines=4000):
     return out
 
 
+def design_level(run):
+    """NoRace over ALL interleavings of the bounded MessageQ / RingBuf configurations under the declared memory orders
+    (MessageQHB.tla, RingBufHB.tla), and its violation when a site that carries a hand-over is relaxed"""
+    light = not run.thorough()
+    good = [("MessageQHB", c) for c in (["t212", "i322"] if light else ["t212", "t222", "t321", "i322"])] + \
+           [("RingBufHB", c) for c in (["a", "d"] if light else ["a", "b", "d", "e"])]
+    for mod, c in good:
+        res = require_ok(run, tlc(run, mod, "%s_%s.cfg" % (mod, c), tag="hbmc-%s-%s" % (mod, c), coverage=False), "%s %s" % (mod, c))
+        if res["violated"]:
+            raise Infra("%s_%s: design-level %s violated under the declared memory orders" % (mod, c, res["violated"]))
+        account_mc(run, res)
+    weak = [("MessageQHB", c) for c in (["w_or", "w_add"] if light else ["w_or", "w_and", "w_add", "w_sub"])] + \
+           [("RingBufHB", c) for c in (["w_pub", "w_ldr"] if light else ["w_pub", "w_ldw", "w_rpub", "w_ldr"])]
+    out = {}
+    for mod, c in weak:
+        res = tlc(run, mod, "%s_%s.cfg" % (mod, c), tag="hbmc-%s-%s" % (mod, c), coverage=False)
+        run.tlc_runs[-1]["expected_violation"] = "NoRace"
+        if res["violated"] != "NoRace":
+            raise Infra("vacuity: %s_%s (a hand-over site relaxed) did not violate NoRace (%s)" % (mod, c, res["violated"]))
+        out["%s_%s" % (mod, c)] = "NoRace violated after %d steps, as it must" % len(res["cex"])
+    if not light:
+        res = require_ok(run, tlc(run, "MessageQHB", "MessageQHB_w_cas.cfg", tag="hbmc-w_cas", coverage=False), "w_cas")
+        out["MessageQHB_w_cas"] = "sendp CAS/load relaxed: NoRace still holds (the index carries no hand-over)" if not res["violated"] else res["violated"]
+    run.extra["design_level_weakening"] = out
+
+
 def run(run):
+    design_level(run)
     light = not run.thorough()
     for variant, flags in (("c11", ()), ("noatomics", ("-D__STDC_NO_ATOMICS__",))):
         exe = build_vrt(run, "mq_drv_" + variant, "mq_drv.c", ["librfn/messageq.c"], extra_flags=flags)
